@@ -8,7 +8,7 @@ the payload and never decrease.
 """
 
 from vf import bits as B
-from vf import monitors, refmodel
+from vf import monitors, refcrc, refmodel, streams
 
 LEVEL = "exploration"
 RULE = (
@@ -29,10 +29,38 @@ ASSUMPTIONS = [
 GATES = ["compared", "flip_checked", "tail_checked", "identities", "pinned_checked"]
 
 
-def parse(payload):
-    from pyrtcm import RTCMMessage
+def parse(payload, rep="bytes", entry="ctor"):
+    """Decode through the constructor or the static frame parser, the bytes handed over as `rep`."""
+    from pyrtcm import RTCMMessage, RTCMReader
 
-    return RTCMMessage(payload=payload)
+    if entry == "ctor":
+        return RTCMMessage(payload=streams.as_rep(rep, payload))
+    return RTCMReader.parse(streams.as_rep(rep, refcrc.frame(payload)))
+
+
+def collider_first(payload, rng):
+    """Parse (through the static parser) a DIFFERENT valid frame of the same length with the same CRC trailer first:
+    the generator polynomial xor-ed into the body, behind the message number. Returns how many twins were accepted."""
+    from pyrtcm import RTCMReader
+
+    frame = refcrc.frame(payload)
+    nb = len(payload) * 8
+    done = 0
+    for _ in range(4):
+        if nb < 12 + 25 + 1:
+            break
+        shift = rng.randrange(0, nb - 12 - 25 + 1)  # pattern's low bit, counted from the end of the payload
+        v = int.from_bytes(payload, "big") ^ (refcrc.POLY << shift)
+        twin = v.to_bytes(len(payload), "big")
+        tf = frame[:3] + twin + frame[-3:]
+        if refcrc.wellformed(tf) is not None:
+            continue
+        try:
+            RTCMReader.parse(tf)
+            done += 1
+        except Exception:
+            pass
+    return done
 
 
 def check_message(ctx, identity, vs, cs, ms, pad1, seedtag):
@@ -46,8 +74,15 @@ def check_message(ctx, identity, vs, cs, ms, pad1, seedtag):
         ctx.violation("malformed-definition", f"{identity}: {e}", params)
         return None
     monitors.CURRENT["identity"] = identity
+    # entry point and representation of the caller's data (all derived from the case seed)
+    rep = streams.pick_rep(rng, 0.6)
+    entry = "ctor" if rng.random() < 0.6 or len(enc.payload) > 1023 else "frame"
+    ctx.hit("entry:" + entry)
+    ctx.hit("rep:" + rep)
+    if entry == "frame" and rng.random() < 0.5:
+        ctx.hit("crc_twins_parsed_first", collider_first(enc.payload, rng))
     try:
-        msg = parse(enc.payload)
+        msg = parse(enc.payload, rep, entry)
     except Exception as e:
         ctx.violation("parse-raised", f"{identity} ({vs},{cs},{ms}) payload {enc.payload[:24].hex()}.. "
                       f"[{len(enc.payload)} bytes]: {type(e).__name__}: {str(e)[:200]}", params)
@@ -88,7 +123,7 @@ def check_message(ctx, identity, vs, cs, ms, pad1, seedtag):
                 new ^= 1
         p2 = B.set_bits(enc.payload, f["start"], w, new)
         try:
-            m2 = parse(p2)
+            m2 = parse(p2, rep, entry)
         except Exception as e:
             ctx.violation("flip-parse-raised", f"{identity}: rewriting {f['name']} raw {f['raw']}->{new}: "
                           f"{type(e).__name__}: {str(e)[:160]}", dict(params, flip=[f["name"], new]))
@@ -116,7 +151,7 @@ def check_message(ctx, identity, vs, cs, ms, pad1, seedtag):
         if len(enc.payload) + len(tail) > 1023:
             continue
         try:
-            m3 = parse(enc.payload + tail)
+            m3 = parse(enc.payload + tail, rep, entry if len(enc.payload) + len(tail) <= 1023 else "ctor")
         except Exception as e:
             ctx.violation("tail-parse-raised", f"{identity}: appending {tail.hex()}: {type(e).__name__}: {e}",
                           dict(params, tail=tail.hex()))
